@@ -1358,7 +1358,7 @@ class t2data(object):
 
     def read_meshmaker_minc(self, infile):
         """Reads MINC meshmaker data"""
-        line = infile.readline().strip()
+        line = padstring(infile.readline().rstrip('\n'))
         keyword = line[0: 5].strip()
         if keyword == 'PART':
             subsection = {}
